@@ -307,6 +307,14 @@ pub fn r_int_ops(n: usize) -> usize {
     let h = n.saturating_add(5) % 13;
     a + c * 7 + d * 31 + e * 101 + f * 1009 + g * 10007 + h
 }
+pub fn r_int_map(n: usize) -> usize {
+    let table: [(u16, &str); 4] = [(2, "two"), (5, "five"), (9, "nine"), (5, "cinq")];
+    let m: HashMap<u16, String> = table.iter().filter_map(|&(c, t)| if c != 9 { Some((c, t.to_string())) } else { None }).collect();
+    let mut m2: HashMap<u16, usize> = HashMap::new();
+    m2.insert(7, 70);
+    m2.insert(n as u16, 1);
+    m.get(&(n as u16)).map(|s| s.len()).unwrap_or(0) + m.len() * 10 + m2.len() * 100 + m2.get(&7).copied().unwrap_or(0) * 1000
+}
 pub fn r_clone_from(s: &str) -> String {
     let mut a = String::from("old");
     let b = s.to_string();
@@ -386,6 +394,7 @@ mod probe_native {
             println!("PROBE\tp_saturating\t{}\t{:?}", n, p_saturating(n));
             println!("PROBE\tq_wrapping\t{}\t{:?}", n, q_wrapping(n));
             println!("PROBE\tr_int_ops\t{}\t{:?}", n, r_int_ops(n));
+            println!("PROBE\tr_int_map\t{}\t{:?}", n, r_int_map(n));
         }
     }
 }
